@@ -8,11 +8,30 @@ from .facts import place_str as _place_str
 
 
 def place_str(n):
-    """place of a local / field path; index expressions are not places here"""
-    p = _place_str(n)
-    if p is None or "[]" in p:
-        return None
-    return p
+    """place of a local / field path; an element selected by a literal index (`lines[0]`) is a place too, an element
+    selected by a computed index is not"""
+    from .facts import peel as _peel, lit_val as _lit
+    x = _peel(n)
+    parts = []
+    while isinstance(x, dict):
+        k = x.get("k")
+        if k == "field":
+            parts.append("." + x["name"])
+            x = _peel(x["e"])
+        elif k == "local":
+            parts.append(x["name"])
+            return "".join(reversed(parts)).replace("..", ".")
+        elif k == "index":
+            v = _lit(_peel(x.get("i"))) if isinstance(x.get("i"), dict) else None
+            if not isinstance(v, int) or isinstance(v, bool):
+                return None
+            parts.append("[%d]" % v)
+            x = _peel(x["e"])
+        elif k == "mcall" and x.get("m") in ("unwrap", "expect", "unwrap_or_default"):
+            x = _peel(x["recv"])
+        else:
+            return None
+    return None
 
 from . import grammar as G
 from .callgraph import CallGraph
@@ -102,6 +121,10 @@ class Env:
 
     def forget(self, p):
         for k in list(self.f):
+            if k.startswith(p + "["):
+                del self.f[k]
+                self.prefix.pop(k, None)
+                continue
             if k == p or k.startswith(p + "."):
                 a = self.f[k].ascii
                 self.f[k] = Facts_(ascii=a)
@@ -291,6 +314,13 @@ class Interp:
                     if ord(ch) < 128:
                         env.upd(pa, minlen=1)
                         env.prefix.setdefault(pa, set()).add(1)
+                # `let c = it.next(); .. c == Some('/')`: c is the n-th char of the iterated text
+                la = peel(a)
+                if ch is not None and ord(ch) < 128 and ((op == "==") == pol) and isinstance(la, dict) and \
+                        la.get("k") == "local" and la.get("id") in env.nth:
+                    nb_ = env.nth[la["id"]]
+                    env.upd("%s#%d" % nb_, ascii=True, digits=ch.isdigit())
+                    self.char_known(nb_, env)
             return env
         if k == "mcall":
             m = c.get("m")
@@ -694,7 +724,11 @@ class Interp:
                     b0 = place_str(x["recv"])
                     if b0:
                         env.iters[pat["id"]] = [b0, -1]      # -1: yields (position, char) pairs
-                if x.get("k") == "mcall" and x.get("m") == "next":
+                xn = x
+                while isinstance(xn, dict) and xn.get("k") == "mcall" and xn.get("m") in ("unwrap", "expect"):
+                    xn = xn["recv"]      # `let c = s.chars().next().unwrap()`: c is still the first char of s
+                if isinstance(xn, dict) and xn.get("k") == "mcall" and xn.get("m") == "next":
+                    x = xn
                     it = peel(x["recv"])
                     if isinstance(it, dict) and it.get("k") == "local" and it["id"] in env.iters:
                         b0, cnt = env.iters[it["id"]]
@@ -967,6 +1001,7 @@ class Interp:
             p = place_str(n["l"])
             if p:
                 f = self.facts_of(n["r"], env)
+                env.forget(p)
                 env.f[p] = f
                 env.prefix.pop(p, None)
             l = peel(n["l"])
@@ -1211,6 +1246,13 @@ class Interp:
             if bad_sides and bad_sides <= set(lost):
                 verdict = "unjudged"
         self.ledger.append(Site("P2", self.b, n, text, verdict, ";".join(problems)))
+        # whatever the verdict here: execution continues past this slice only if its constant bounds were char
+        # boundaries inside the text, so later slices of the same (unchanged) text at those offsets are proven
+        if base and (isinstance(a, int) or isinstance(b_, int)):
+            for v_ in (a, b_):
+                if isinstance(v_, int) and not isinstance(v_, bool) and v_ > 0:
+                    env.prefix.setdefault(base, set()).add(v_)
+                    env.upd(base, minlen=v_)
 
     def _bindmap(self):
         if hasattr(self, "_bm"):
